@@ -36,8 +36,11 @@ int mt_self(void)
 	return my_idx < 0 ? 15 : my_idx;	/* 15: a thread created by the library itself */
 }
 
+extern int ivmt_trace_off;
+
 void mt_init(void)
 {
+	ivmt_trace_off = 1;
 	my_idx = 0;
 	thr[0] = pthread_self();
 }
